@@ -99,6 +99,34 @@ pub fn gen(ctx: &mut Ctx) {
         run_ccase(ctx, "C02", &w, &steps);
         ctx.stat("c02.corpus.same_account_again");
     }
+    // credential ids are fresh random bytes to their last byte: 140 registrations per configured length, no byte
+    // position constant, no id repeated
+    for len in [1u8, 7, 8, 9, 16, 17, 23, 31, 33, 63, 64] {
+        use passkey_authenticator::{Authenticator, CredentialIdLength, MemoryStore};
+        let mut auth = Authenticator::new(passkey_types::ctap2::Aaguid::from(crate::util::AAGUID), MemoryStore::new(), crate::au::SharedUv { st: std::sync::Arc::new(std::sync::Mutex::new(UvState::ok())), log: crate::env::new_log(), yields: false });
+        auth.set_make_credential_id_length(CredentialIdLength::from(len));
+        let want = len.clamp(16, 64) as usize;      // the documented range, computed here (not by the code under test)
+        let (mut or, mut and, mut ids) = (vec![0u8; want], vec![0xffu8; want], std::collections::HashSet::new());
+        let mut ok_len = true;
+        let mut bad_keys = 0usize;
+        for _ in 0..140 {
+            let m = simple_make(ctx, "example.com");
+            if let Ok(r) = crate::env::block_on(auth.make_credential(m.real_pub())) {
+                let id = r.auth_data.attested_credential_data.as_ref().map(|a| a.credential_id().to_vec()).unwrap_or_default();
+                if id.len() != want { ok_len = false; } else { for (k, b) in id.iter().enumerate() { or[k] |= b; and[k] &= b; } }
+                ids.insert(id);
+                // the attested key: both coordinates 32 bytes whatever their leading bytes (about one key in 128 has a zero there)
+                let shape_ok = r.auth_data.attested_credential_data.as_ref().map(|a| {
+                    let k = &a.key;
+                    let len_of = |label: i64| k.params.iter().find_map(|(l, v)| if *l == coset::Label::Int(label) { v.as_bytes().map(|b| b.len()) } else { None });
+                    len_of(-2) == Some(32) && len_of(-3) == Some(32) && passkey_authenticator::public_key_der_from_cose_key(k).map(|d| d.len() == 91).unwrap_or(false) }).unwrap_or(false);
+                if !shape_ok { bad_keys += 1; }
+            }
+        }
+        let obs = format!("{} {} {} {}", crate::util::hexf(&or), crate::util::hexf(&and), (ids.len() == 140 && ok_len) as u8, bad_keys);
+        ctx.line(&format!("cl.idbits {} {} {} {} {}", want, crate::util::hexf(&or), crate::util::hexf(&and), (ids.len() == 140 && ok_len) as u8, bad_keys), &obs);
+        ctx.stat("c02.id_freshness_batches");
+    }
     let n = if ctx.thorough { 1500 } else { 150 };
     for i in 0..n {
         let kind = [Kind::RefFull, Kind::Map, Kind::RefForced, Kind::RefNonDisc, Kind::Slot][i % 5];
